@@ -65,11 +65,15 @@ def _collect(ctx, level, njobs):
     return succ
 
 
-def explore(ctx, sysmod, inits, max_depth=None, max_states=50000, chunk=4, init_chunk=4):
+def explore(ctx, sysmod, inits, max_depth=None, max_states=50000, max_transitions=None, chunk=4, init_chunk=4):
     """Run the search; fills ctx.states / transitions / traces / max_depth and returns a summary dict.
 
     max_depth: number of operations after the initial event (None: run to the fixpoint).
+    max_states / max_transitions: hard caps (termination on a system whose state space explodes); when one is hit the
+    remaining frontier is left unexpanded and ctx.caps says so (the run is then not reported as exhaustive).
     """
+    S = importlib.import_module(sysmod)
+    planned = 0
     seen = {}
     jobs = [('job_init', (sysmod, j, inits[lo:lo + init_chunk])) for j, lo in enumerate(range(0, len(inits), init_chunk))]
     core.run_jobs(ctx, __name__, jobs)
@@ -81,11 +85,28 @@ def explore(ctx, sysmod, inits, max_depth=None, max_states=50000, chunk=4, init_
         seen[sid] = hist
         frontier.append([hist, sid])
     levels = [len(frontier)]
-    depth, closed, capped = 0, True, False
+    depth, closed, capped, dropped = 0, True, False, 0
     while frontier:
         if max_depth is not None and depth >= max_depth:
             closed = False
             break
+        if max_transitions is not None:
+            keep = 0
+            for hist, _ in frontier:
+                n = len(S.mc_ops(ctx, hist))
+                if planned + n > max_transitions:
+                    break
+                planned += n
+                keep += 1
+            if keep < len(frontier):
+                ctx.caps.append(f'transition cap {max_transitions} hit at depth {depth}: {len(frontier) - keep} of '
+                                f'{len(frontier)} frontier states left unexpanded')
+                capped = True
+                dropped += len(frontier) - keep
+                frontier = frontier[:keep]
+                if not frontier:
+                    closed = False
+                    break
         depth += 1
         jobs = [('job_expand', (sysmod, depth, j, frontier[lo:lo + chunk]))
                 for j, lo in enumerate(range(0, len(frontier), chunk))]
@@ -102,12 +123,13 @@ def explore(ctx, sysmod, inits, max_depth=None, max_states=50000, chunk=4, init_
             nxt.append([hist, sid])
         levels.append(len(nxt))
         frontier = nxt
-        if capped:
+        if len(seen) >= max_states and capped:
             ctx.caps.append(f'state cap {max_states} hit at depth {depth}: exploration stopped')
+        if capped:
             closed = False
             break
     ctx.states += len(seen)
     ctx.max_depth = max(ctx.max_depth, max((len(h) - 1 for h in seen.values()), default=0))
     return {'states': len(seen), 'new_states_per_level': levels, 'transitions_into_known_states': merged,
-            'fixpoint_reached': closed, 'unexpanded_states_at_depth_bound': len(frontier) if not closed else 0,
+            'fixpoint_reached': closed, 'unexpanded_states': (len(frontier) + dropped) if not closed else 0,
             'depth_bound': max_depth, 'longest_representative_history': ctx.max_depth}
